@@ -1583,9 +1583,10 @@ func (v *FnV) loopCore(st *State, node ast.Stmt, label string, modified []ast.No
 
 	var out Flow
 	ord := v.fr().ord[node]
-	if fc := v.frameContract(); fc != nil && v.loopHid == nil {
+	if fc := v.frameContract(); fc != nil {
 		if n, ok := fc.Unroll[ord]; ok {
 			v.autoInv = nil
+			v.loopHid, v.loopBind = nil, nil
 			return v.unrollLoop(st, node, label, ord, n, guard, body, post)
 		}
 	}
